@@ -75,7 +75,7 @@ func (g *Gen) fmtValue(keep int) d128.Decimal {
 		if c.Cmp(cMax) > 0 {
 			c = new(big.Int).Set(cMax)
 		}
-		adj := []int{-7, -6, -5, -4, -3, 0, 1, 5, 6, 7, 20, 21, 39, 40, 41, 100, -100, 6000, -6000}[g.r.Intn(19)]
+		adj := []int{-7, -6, -5, -4, -3, 0, 1, 5, 6, 7, 9, 10, 20, 21, 39, 40, 41, 99, 100, 101, -99, -100, -101, 999, 1000, 1001, -999, -1000, -1001, 6000, -6000, 6145, -6176}[g.r.Intn(33)]
 		return mk(neg, c, clampExp(adj-(len(c.String())-1)))
 	}
 }
